@@ -888,13 +888,14 @@ func RuleShareIn(r *Report, p *Program, rules aspectSet, keep func(parent string
 					continue
 				}
 				nGo++
-				mc, ok := g.Call.Value.(*ssa.MakeClosure)
-				if !ok {
+				gt := goTargetOf(g)
+				if gt == nil {
 					continue
 				}
-				cfn := mc.Fn.(*ssa.Function)
+				cfn := gt.Fn
 				gname := calleeName(cfn)
-				if rules["T8"] {
+				mc, isClosure := g.Call.Value.(*ssa.MakeClosure)
+				if rules["T8"] && isClosure {
 					for bi, bv := range mc.Bindings {
 						al, ok := bv.(*ssa.Alloc)
 						var elem types.Type
@@ -954,21 +955,12 @@ func RuleShareIn(r *Report, p *Program, rules aspectSet, keep func(parent string
 				}
 				if rules["T7"] {
 					// does the goroutine loop on a blocking read?
-					reads := false
-					for _, b2 := range cfn.Blocks {
-						for _, in2 := range b2.Instrs {
-							if c, ok := in2.(ssa.CallInstruction); ok {
-								if f := c.Common().StaticCallee(); f != nil && strings.HasPrefix(f.Name(), "Read") && f.Pkg != nil && f.Pkg.Pkg.Path() == "net" {
-									reads = true
-								}
-							}
-						}
-					}
+					reads := readsSocket(cfn)
 					if reads {
 						w := NewWalker(p)
 						w.LoopFuel = 2
-						w.Inline = func(f *ssa.Function, d int) bool { return false }
-						paths := w.Walk(cfn, nil, nil)
+						w.Inline = inlineHelpers([]*ssa.Package{p.SSAPkg("uhppote")}, nil)
+						paths := w.Walk(cfn, symbolicArgs(cfn), nil)
 						exits := false
 						spins := false
 						for _, pa := range paths {
